@@ -200,6 +200,29 @@ func decoScenario(np, ns int, c int) *explore.Scenario {
 		for i := 0; i < ns; i++ {
 			sd = append(sd, message.MessageTransformSubscriberDecorator(tag("s", i)))
 		}
+		// the same decorator value may be listed twice (it is applied twice, each time around what is inside it)
+		pname := func(i int) int { return i }
+		sname := pname
+		if (np >= 2 || ns >= 2) && vs.Choose(2, 0, "first decorator value listed again at the end") == 1 {
+			if np >= 2 {
+				pd[np-1] = pd[0]
+				pname = func(i int) int {
+					if i == np-1 {
+						return 0
+					}
+					return i
+				}
+			}
+			if ns >= 2 {
+				sd[ns-1] = sd[0]
+				sname = func(i int) int {
+					if i == ns-1 {
+						return 0
+					}
+					return i
+				}
+			}
+		}
 		if np > 0 {
 			k := vs.Choose(np+1, 0, "publisher batch split")
 			r.AddPublisherDecorators(pd[:k]...)
@@ -243,10 +266,10 @@ func decoScenario(np, ns int, c int) *explore.Scenario {
 		vs.Quiesce()
 		wantIn, wantOut := "", ""
 		for i := 0; i < ns; i++ {
-			wantIn += fmt.Sprintf("s%d,", i)
+			wantIn += fmt.Sprintf("s%d,", sname(i))
 		}
 		for i := 0; i < np; i++ {
-			wantOut += fmt.Sprintf("p%d,", i)
+			wantOut += fmt.Sprintf("p%d,", pname(i))
 		}
 		inTrace := ""
 		for i, h := range hs {
